@@ -133,8 +133,8 @@ example : (run g' s' cfg).results.map (·.cat) = [5] := by decide
 example : (run g s cfg).results.map (·.d) = [.bin 2 0 true (.leaf 0 0) (.leaf 1 1)] := by decide
 example : (run g' s' cfg).results.map (·.d) = [.bin 5 0 true (.leaf 0 0) (.leaf 1 1)] := by decide
 example : (run g s cfg).steps = (run g' s' cfg).steps := by decide
-example : (run g' s' cfg).results = (run g s cfg).results.map (renameItem σ) := by decide
-example : (run g' s' cfg).popped = (run g s cfg).popped.map (renameItem σ) := by decide
+example : (run g' s' cfg).results = (run g s cfg).results.map (renameItem σ) := by decide +kernel
+example : (run g' s' cfg).popped = (run g s cfg).popped.map (renameItem σ) := by decide +kernel
 /-- the renaming is not the identity on this run -/
 example : (run g' s' cfg).results ≠ (run g s cfg).results := by decide
 
